@@ -630,6 +630,7 @@ STEPS = {
     "U": "(parameters not set yet)", "N": "set_prms(negative mean)", "A": "set_prms(A)",
     "E": "set_prms(A perturbed by less than any tolerance)", "T": "driver := driver scaled below any tolerance",
     "Q": "lifetime_model.inflow_at assigned another value",
+    "M": "set_prms(first parameter as before, the others new)",
     "I": "the parameter arrays passed last time edited in place (values of B), then set_prms(the same objects)",
 }
 
@@ -662,6 +663,10 @@ def case_history(prog, cfg, cls_name, hist):
                 else:
                     prms[nm] = base + eps
             sw.it.call_method(lm, "set_prms", **prms)
+        elif dsm and version == "mixed":
+            lm, _, _ = make_lifetime(sw, dist, cfg["over"], version="A", inflow_at=cfg["inflow_at"], n_pts=cfg["n_pts"], set_params=False)
+            prms = {nm: sw.param(nm, cfg["over"], "A" if j == 0 else "B")[0] for j, nm in enumerate(DISTS[dist])}
+            sw.it.call_method(lm, "set_prms", **prms)
         elif dsm:
             lm, _, _ = make_lifetime(sw, dist, cfg.get("over2", cfg["over"]) if version == "B" else cfg["over"], version=version, inflow_at=cfg["inflow_at"], n_pts=cfg["n_pts"])
         arrays = {drv_name: driver.copy()}
@@ -693,10 +698,12 @@ def case_history(prog, cfg, cls_name, hist):
     for i, step in enumerate(hist):
         if step == "U":
             continue
-        if step in ("P", "A", "N", "E"):
+        if step in ("P", "A", "N", "E", "M"):
             if not dsm:
                 continue
-            v = {"P": "B", "A": "A", "N": "Neg", "E": "A+eps"}[step]
+            if step == "M" and len(DISTS[dist]) < 2:
+                continue
+            v = {"P": "B", "A": "A", "N": "Neg", "E": "A+eps", "M": "mixed"}[step]
             prms = {}
             for nm in DISTS[dist]:
                 if step == "E":     # the same parameters perturbed by less than any tolerance: close, but different
@@ -707,6 +714,9 @@ def case_history(prog, cfg, cls_name, hist):
                         prms[nm] = base
                     else:
                         prms[nm] = base + eps
+                    continue
+                if step == "M":         # only the second (third ...) parameter changes, the first keeps its value
+                    prms[nm], _ = sw.param(nm, cfg["over"], "A" if nm == DISTS[dist][0] else "B")
                     continue
                 prms[nm], _ = sw.param(nm, cfg.get("over2", cfg["over"]) if step == "P" else cfg["over"], v,
                                        sign=("neg" if (step == "N" and nm in ("mean", "weibull_shape")) else "pos"))
